@@ -2,7 +2,9 @@
    Theorems only. They compose the models of the client (C10: url.PathEscape / QueryEscape, Lib/UrlEscape.v) and of the
    server (C01/C05: cleaning, trie routing, unescaping of captured texts, Model/SpecRouter*.v).
    Header parameters: the line net/http writes and net/textproto reads (Model/HeaderWire.v) round-trips name and value.
-   PARTIAL: multipart documents, body codecs and the response path are tied by the correspondence run
+   Multipart documents: the framing mime/multipart writes and reads (Model/MultipartWire.v) round-trips every list of parts
+   whose contents hold no live delimiter, and that proviso is exact.
+   PARTIAL: the meaning of part headers, body codecs and the response path are tied by the correspondence run
    (real client -> wire -> real middleware -> response reader) only. *)
 From V Require Import Bytes PathCleanLib SpecRouter SpecRouterSpec SpecRouterSegs SpecRouterSegDispatch RoundTrip RoundTripProofs.
 From V Require UrlEscape PathUnescapeLib.
@@ -123,6 +125,14 @@ Theorem C04_multipart_roundtrip_sharp : forall b parts,
   mp_parse (length (mp_render b parts)) b (mp_render b parts) = Some parts.
 Proof. exact multipart_roundtrip_sharp. Qed.
 Print Assumptions C04_multipart_roundtrip_sharp.
+
+(* and the sharp proviso is EXACT: a first part whose content holds a live delimiter never comes back as written,
+   whatever the fuel, whatever follows *)
+Theorem C04_multipart_live_delimiter_breaks : forall b h c ps fuel,
+  boundary_ok b = true -> hdr_ok h = true -> no_live_delim b c = false ->
+  mp_parse fuel b (mp_render b ((h, c) :: ps)) <> Some ((h, c) :: ps).
+Proof. exact multipart_live_delimiter_breaks. Qed.
+Print Assumptions C04_multipart_live_delimiter_breaks.
 
 (* the hypotheses are met by the header blocks client/request.go writes and by contents with CR, LF, dashes and the
    delimiter cut short by one byte *)
